@@ -56,7 +56,12 @@ def headers_for(rng, user, pw, tok):
     return [h for h in H if not (h[0] == "none" and h[1] is None and H.index(h) > 0)]
 
 
-PATHS = [b"/api/v1/dags", b"/api", b"/api/v1/dags/x?y=1", b"/apix", b"/", b"/dags", b"/assets/a.js", b"/ap", b"/API/v1/dags"]
+PATHS = [b"/api/v1/dags", b"/api", b"/api/v1/dags/x?y=1", b"/apix", b"/", b"/dags", b"/assets/a.js", b"/ap", b"/API/v1/dags",
+         # non-canonical spellings (the chain sees r.URL.Path as sent: not cleaned); percent-escapes are left to the
+         # real-server path stream, the model's path is the decoded URL path
+         b"/api/v1/docs/../dags", b"/api/v1/swagger.json/../dags", b"/assets/../api/v1/dags", b"/api/v1/./dags",
+         b"//api/v1/dags", b"/api/v1//dags", b"/api/v1/dags/", b"/api/v1/docs", b"/api/../x", b"/x/../api/v1/dags",
+         b"/api/v1/dags;x=1", b"/api/v1/docs/x/../../dags/a"]
 METHODS = ["GET", "POST", "PUT", "DELETE", "PATCH", "HEAD", "OPTIONS"]
 NEITHER = {"none", "empty", "basic_wrongpass", "basic_casepass", "basic_prefixpass", "basic_wronguser", "basic_emptyuser",
            "basic_nocolon", "basic_badb64", "basic_truncated", "bearer_wrong", "bearer_prefix", "bearer_case",
@@ -141,6 +146,233 @@ def server_stream(chk, binp, only=None):
     chk.stats = dict(getattr(chk, "stats", None) or {}, server_requests=n)
 
 
+# ---------------------------------------------------------------- the PATH as a generated dimension (real server, raw client)
+API = "/api/v1"
+# every route of api.v1.yaml: (op, method, route under the API base, query, body). "{C}" = the planted DAG's name,
+# "{N}" = a name that does not exist yet, "{W}" = a word of the planted DAG's description
+OPS = [("list", "GET", "dags", "", None),
+       ("create", "POST", "dags", "", {"action": "new", "value": "{N}"}),
+       ("details", "GET", "dags/{C}", "", None),
+       ("action", "POST", "dags/{C}", "", None),          # body chosen per request: suspend / save / rename
+       ("delete", "DELETE", "dags/{C}", "", None),
+       ("search", "GET", "search", "q=command", None),   # a word of every DAG file; the answer names the DAG
+       ("tags", "GET", "tags", "", None),
+       # not API operations (documentation): sent to find out what the code does with them, no verdict on their status
+       ("docs", "GET", "docs", "", None),
+       ("spec", "GET", "swagger.json", "", None)]
+DOC_OPS = {"docs", "spec"}
+
+
+def spellings(route, base):
+    """(kind, raw request target without query) for one route: every one of them is, after RFC 3986 normalisation
+    (dot segments removed, percent-escapes of unreserved characters decoded, empty segments dropped) or after a
+    case fold, the same API path — or simply contains it; sent AS-IS on the wire"""
+    A, R = API, route
+    first, _, rest = R.partition("/")
+    S = [("canonical", A + "/" + R),
+         ("docs_dotdot", A + "/docs/../" + R),
+         ("docs_deep_dotdot", A + "/docs/x/../../" + R),
+         ("docs_oauth_dotdot", A + "/docs/oauth2-callback/../../" + R),
+         ("docsx_dotdot", A + "/docsx/../" + R),
+         ("spec_dotdot", A + "/swagger.json/../" + R),
+         ("assets_dotdot", "/assets/../api/v1/" + R),
+         ("x_dotdot", A + "/x/../" + R),
+         ("root_dotdot", "/x/../api/v1/" + R),
+         ("api_dotdot", "/api/../api/v1/" + R),
+         ("v1_dotdot", "/api/v1/../v1/" + R),
+         ("dot", A + "/./" + R),
+         ("dslash_lead", "/" + A + "/" + R),
+         ("dslash_mid", A + "//" + R),
+         ("dslash_api", "/api//v1/" + R),
+         ("trailing_slash", A + "/" + R + "/"),
+         ("trailing_dot", A + "/" + R + "/."),
+         ("upper_api", "/API/v1/" + R),
+         ("upper_route", A + "/" + first.upper() + ("/" + rest if rest else "")),
+         ("pct_dotdot", A + "/docs/%2e%2e/" + R),
+         ("pct_dotdot_uc", A + "/docs/%2E%2E/" + R),
+         ("pct_dot_half", A + "/docs/.%2e/" + R),
+         ("pct_slash", A + "/docs%2F..%2F" + R),
+         ("pct_slash_base", "/api%2Fv1/" + R),
+         ("pct_letter", A + "/%" + "%02x" % ord(R[0]) + R[1:]),
+         ("pct_api", "/%61pi/v1/" + R),
+         ("semicolon", A + "/" + R + ";x=1"),
+         ("semicolon_docs", A + "/docs;x/../" + R),
+         ("query", A + "/" + R + "?x=1"),
+         ("query_docs", A + "/" + R + "?next=/api/v1/docs"),
+         ("fragment", A + "/" + R + "#/api/v1/docs"),
+         ("backslash", A + "/docs\\..\\" + R),
+         ("absolute_form", "http://{HOSTPORT}" + A + "/" + R),
+         ("absolute_dotdot", "http://{HOSTPORT}" + A + "/docs/../" + R)]
+    if base:
+        S += [("base_prefixed", base + A + "/" + R), ("base_dotdot", base + "/../api/v1/" + R)]
+    return S
+
+
+def with_query(target, q):
+    if not q:
+        return target
+    if "#" in target:
+        t, f = target.split("#", 1)
+        return with_query(t, q) + "#" + f
+    return target + ("&" if "?" in target else "?") + q
+
+
+def layer_of(r, reached):
+    """which layer answered (for the answer table): auth chain / an API handler / the go-openapi layer behind the chain
+    (router errors, Swagger UI, spec) / the web UI's default handler / net/http itself"""
+    body = bytes.fromhex(r.get("body", ""))
+    ct = r.get("ctype", "")
+    if r["code"] == 401: return "auth"
+    if reached: return "HANDLER"
+    if r["code"] == 303: return "redirect"
+    if ct.startswith("application/json"):
+        if body.startswith(b'{"code":'): return "apirouter"
+        if body.startswith(b'{"swagger"') or b'"swagger"' in body[:40]: return "apispec"
+        return "apijson"
+    if ct.startswith("text/html"):
+        return "apidocs" if (b"swagger-ui" in body.lower() or b"SwaggerUI" in body) else "ui"
+    if ct.startswith("text/plain"): return "nethttp"
+    return "other" if r["code"] > 0 else "neterr"
+
+
+def reach_evidence(op, r, sent=b""):
+    """OPERATIONAL definition of 'the request reached an API handler' (the go-openapi router dispatched it to one of the
+    operation handlers of internal/frontend/dag), from the outside:
+      * mark   — the response body contains a string that only the planted DAG holds (its name, its tag, a word of its
+                 description) and that the request itself did NOT contain (error messages echo the request path):
+                 only listDags / getDagDetails / searchDags / listTags read the DAG store;
+      * effect — the DAGs directory or the suspend-flag directory changed during the request (createDag / postDagAction
+                 / deleteDag are the only code that writes there);
+      * shape  — a JSON answer in the shape only the operation handlers produce: a success model (DAGs / DAG / Tags /
+                 Results / DagID / Errors keys) or the handlers' error model {"message", "detailedMessage"} (the
+                 go-openapi layer's own errors are {"code", "message"}: router-level 404 'path … was not found', 405,
+                 422 — produced before any handler runs; the UI's index page and net/http's plain-text 400/404 are not
+                 JSON at all)."""
+    ev = []
+    disclosed = [m for m in (r.get("marks") or []) if m.encode() not in sent]
+    if disclosed: ev.append("mark[%s]" % ",".join(disclosed))
+    if r.get("effect"): ev.append("effect[%s]" % r["effect"])
+    body = bytes.fromhex(r.get("body", ""))
+    if r.get("ctype", "").startswith("application/json") and r["code"] != 401 and not body.startswith(b'{"code":'):
+        for key in (b'"DAGs"', b'"DAG"', b'"Tags"', b'"Results"', b'"DagID"', b'"Errors"', b'"detailedMessage"', b'"Definition"'):
+            if key in body:
+                ev.append("shape[%s]" % key.decode().strip('"')); break
+    return ev
+
+
+def path_stream(chk, binp, only=None):
+    """the PATH dimension: for every route of the API spec, every spelling of its path (`spellings`), sent raw, with
+    no / wrong / right credentials, under the same 8 server configurations as `server_stream`. Verdict (no Lean model
+    involved): without a valid secret no API handler is reached, whatever the spelling; a literal /api… target without a
+    valid secret is answered 401; the standard right credentials on the canonical path reach the handler."""
+    import time
+    t0 = time.time()
+    rng = chk.rng
+    if only is not None:
+        cases = [only]
+    else:
+        cases = []
+        k = 0
+        for hasB, hasT in [(False, False), (True, False), (False, True), (True, True)]:
+            for rep in range(2 if chk.tier == "quick" else 6):
+                user, pw, tok = rng.choice(SECRETS[:5] + [b"a"]), rng.choice(SECRETS), rng.choice(SECRETS)
+                if rep == 0 and hasT: tok = b""             # token auth switched on with an empty secret
+                if rep == 1 and hasB: pw = b""
+                if rep >= 1 and hasT and not tok: tok = b"tok"
+                base = ("/bd" if hasB != hasT else "") if rep == 1 else rng.choice(["", "/bd"])
+                tagw = "".join(rng.choice("abcdefghijklmnopqrstuvwxyz") for _ in range(6))
+                canary, tag, word = "cnry" + tagw, "tg" + tagw[::-1], "wd" + tagw[2:] + tagw[:2]
+                creds = [("none", None)]
+                wrongs, rights = [], []
+                if hasB:
+                    wrongs.append(("basic_wrongpass", b"Basic " + b64(user + b":" + pw + b"x")))
+                    rights.append(("basic_ok", b"Basic " + b64(user + b":" + pw)))
+                if hasT:
+                    wrongs.append(("bearer_wrong", b"Bearer " + tok + b"x"))
+                    rights.append(("bearer_ok", b"Bearer " + tok))
+                if not wrongs:
+                    wrongs.append(("basic_wrongpass", b"Basic " + b64(b"u:p")))
+                    rights.append(("basic_ok", b"Basic " + b64(user + b":" + pw)))
+                reqs = []
+                for op, meth, route, q, body in OPS:
+                    route_c = route.replace("{C}", canary)
+                    for kind, target in spellings(route_c, base):
+                        for ck, chdr in [creds[0], rng.choice(wrongs), rng.choice(rights)] + (
+                                [rights[-1]] if kind == "canonical" and len(rights) > 1 else []):
+                            b = body
+                            if op == "action":
+                                b = rng.choice([{"action": "suspend", "value": "true"},
+                                                {"action": "rename", "value": "rn" + tagw},
+                                                {"action": "save", "value": "steps:\n  - name: z\n    command: \"true\"\n"}])
+                            bj = json.dumps(b).replace("{N}", "nw" + tagw) if b is not None else ""
+                            reqs.append({"id": "p%d" % len(reqs), "op": op, "pkind": kind, "method": meth,
+                                         "target": with_query(target, q.replace("{W}", word)).encode().hex(),
+                                         "target_text": with_query(target, q.replace("{W}", word)),   # for the reader of a replay
+                                         "hasHdr": chdr is not None, "hdr": (chdr or b"").hex(), "kind": ck, "body": bj.encode().hex()})
+                cases.append({"id": "pth%d" % k, "hasBasic": hasB, "user": user.hex(), "pass": pw.hex(), "hasToken": hasT, "token": tok.hex(),
+                              "base": base.encode().hex(), "canary": canary, "marks": [canary, tag, word], "preqs": reqs, "reqs": []}); k += 1
+    p = subprocess.run([binp, "paths"], input="\n".join(json.dumps(c) for c in cases) + "\n", stdout=subprocess.PIPE,
+                       stderr=subprocess.PIPE, text=True, timeout=900)
+    res = {}
+    for l in p.stdout.strip().split("\n"):
+        if l.strip():
+            r = json.loads(l); res[r["id"]] = r
+    table, n, live, nosecret = {}, 0, {}, 0
+    for c in cases:
+        rr = res.get(c["id"])
+        if not rr or rr.get("err") or len(rr.get("res") or []) != len(c["preqs"]):
+            chk.oblige("harness-run:auth-paths:" + c["id"], False, "res=%r stderr=%s" % ((rr or {}).get("err"), p.stderr[-300:])); continue
+        user, pw, tok = bytes.fromhex(c["user"]), bytes.fromhex(c["pass"]), bytes.fromhex(c["token"])
+        authcfg = c["hasBasic"] or c["hasToken"]
+        for q, r in zip(c["preqs"], rr["res"]):
+            n += 1; chk.evaluations += 1
+            target = bytes.fromhex(q["target"]).decode()
+            hdr = bytes.fromhex(q["hdr"]) if q["hasHdr"] else None
+            pres = presents_secret(c["hasBasic"], user, pw, c["hasToken"], tok, hdr)
+            ev = reach_evidence(q["op"], r, bytes.fromhex(q["target"]) + bytes.fromhex(q["body"])) if q["op"] not in DOC_OPS else []
+            one = dict({kk: vv for kk, vv in c.items() if kk != "preqs"}, preqs=[q])
+            cls = "noauth" if not authcfg else ("secret" if pres else ("none" if hdr is None else "wrong"))
+            table.setdefault((q["pkind"], cls, "doc" if q["op"] in DOC_OPS else "op"), {})
+            cell = table[(q["pkind"], cls, "doc" if q["op"] in DOC_OPS else "op")]
+            key = "%d/%s" % (r["code"], layer_of(r, bool(ev))); cell[key] = cell.get(key, 0) + 1
+            if authcfg:
+                chk.nontrivial.add((c["id"], q["op"], q["pkind"], q["kind"]))
+            if r["code"] < 0:
+                chk.oblige("harness-run:auth-paths:%s:%s" % (c["id"], q["id"]), False, "request failed: %r %r" % (target, r.get("err"))); continue
+            what = "%s %s (%s of %s, header kind %s; basic %s, token %s%s) -> %d %s" % (
+                q["method"], target, q["pkind"], q["op"], q["kind"], c["hasBasic"], c["hasToken"],
+                ", EMPTY token" if c["hasToken"] and not tok else "", r["code"], bytes.fromhex(r.get("body", ""))[:80])
+            if authcfg and not pres:
+                nosecret += 1
+                if ev:
+                    chk.violation("C17:server:api-handler-reached-without-secret:" + q["pkind"],
+                                  "the real server let a request presenting neither secret reach an API handler (evidence: %s): %s" % (", ".join(ev), what),
+                                  {"path_case": one})
+                elif q["op"] not in DOC_OPS and target.startswith("/api") and r["code"] != 401:
+                    chk.violation("C17:server:no-secret-not-401:path:" + q["pkind"],
+                                  "the real server answered a request to a literal /api… target presenting neither secret with something else than 401: " + what,
+                                  {"path_case": one})
+            if q["pkind"] == "canonical" and q["op"] not in DOC_OPS:
+                std = (not authcfg) or (q["kind"] == "basic_ok" and c["hasBasic"] and b":" not in user) or \
+                      (q["kind"] == "bearer_ok" and c["hasToken"] and tok and b" " not in tok)
+                if std and (q["kind"] != "none" or not authcfg):
+                    if r["code"] == 401:
+                        chk.violation("C17:server:standard-credentials-refused:path:" + q["op"],
+                                      "the real server answered 401 to standard right credentials on the canonical path: " + what, {"path_case": one})
+                    live.setdefault(q["op"], []).append((bool(ev), what))
+            if not authcfg and r["code"] == 401:
+                chk.violation("C17:server:refused-without-auth-configured:path", "no auth configured but 401: " + what, {"path_case": one})
+    if only is None:
+        # the detector is alive: with acceptable credentials on the canonical path EVERY operation shows the evidence
+        dead = [(op, [w for e, w in v if not e][:1]) for op, v in live.items() if not all(e for e, _ in v)]
+        missing = [o[0] for o in OPS if o[0] not in DOC_OPS and o[0] not in live]
+        chk.oblige("server-paths:handler-reach-detector-alive (canonical path + right credentials shows the evidence, every operation)",
+                   not dead and not missing, "no evidence: %r never accepted: %r" % (dead, missing))
+    chk.stats = dict(getattr(chk, "stats", None) or {}, path_requests=n, path_requests_without_secret=nosecret,
+                     path_wall_s=round(time.time() - t0, 1),
+                     path_table={"%s|%s|%s" % k: v for k, v in sorted(table.items())})
+
+
 def run(chk, replay):
     chk.trusted = common.TRUSTED_COMMON + ["net/http header parsing and base64 re-implemented in Lean (validated differentially; decode∘encode = id proved)"]
     chk.assumptions = ["header value as delivered to the handler (net/http's own trimming of the wire value is upstream of the chain)",
@@ -152,6 +384,8 @@ def run(chk, replay):
     chk.oblige("harness-build:auth", True)
     rng = chk.rng
     cases = []
+    if replay and "path_case" in json.load(open(replay)).get("case", {}):
+        path_stream(chk, binp, only=json.load(open(replay))["case"]["path_case"]); return
     if replay and "server_case" in json.load(open(replay)).get("case", {}):
         server_stream(chk, binp, only=json.load(open(replay))["case"]["server_case"]); return
     if replay:
@@ -241,8 +475,13 @@ def run(chk, replay):
     chk.stats = {"decisions": dist, "cases": len(cases)}
     if not replay:
         server_stream(chk, binp)
+        path_stream(chk, binp)
     chk.rule = ("4 auth configurations x secrets pool (incl. empty, prefix-related, token = password, ':' and ' ' inside, UTF-8) x "
                 "header grammar of %d kinds (scheme case, spacing, base64 validity, each part right/wrong/empty/truncated/wrong case, "
-                "secret under the other scheme, garbage) x methods x path shapes with/without base path; non-trivial = some auth configured; "
-                "distinct = distinct (configuration, header, path)" % len(headers_for(rng, b"u", b"p", b"t")))
+                "secret under the other scheme, garbage) x methods x path shapes (canonical and non-canonical spellings) with/without base path; "
+                "real server, raw client: 8 configurations x every route of the API spec (%d operations + docs/spec) x %d raw spellings of its "
+                "path (dot segments under /docs, /swagger.json, /assets, other prefixes; doubled slashes; trailing slash/dot; case; "
+                "percent-escaped '.', '/', letters; ';params'; '?query'; '#'; backslash; absolute form; base path) x no/wrong/right credentials; "
+                "non-trivial = some auth configured; distinct = distinct (configuration, header, path)" % (
+                    len(headers_for(rng, b"u", b"p", b"t")), len(OPS) - len(DOC_OPS), len(spellings("dags", "/bd"))))
     chk.samples = [dict(cases[i], impl=hl[i]) for i in (0, len(cases) // 3, len(cases) - 1)]
